@@ -4,17 +4,25 @@
     K makes a change and every input:  observe (exec P) = observe (exec (run_K P))   (same value, same exception type).
 
     What is proved here (all unbounded: every MiniPy expression, every environment):
-    for the five rewrite kernels modelled in Model/Rewrites.v, as written in the current source (table values in
-    Generated/Tables.v),  guard e rho -> eval rho (norm (rw e)) = eval rho (norm e)  with the guard explicit and decidable
-    (Spec/RewritesSpec.v), and just outside every conjunct of the guard a concrete program whose behaviour changes
-    ([changes]: fully parenthesised, well-formed, meaning differs).  [norm] is the tree CPython parses from the printed
-    text, so parentheses lost by the rewrite are part of the statement.
+    for the rewrite kernels modelled in Model/Rewrites.v, as written in the current source (table values in
+    Generated/Tables.v):   parses_as_built e -> parses_as_built (rw e) -> in_model (meaning rho e) = true -> guard e rho ->
+    eval rho (norm (rw e)) = eval rho (norm e),  with the guard explicit and decidable (Spec/RewritesSpec.v), and just
+    outside every conjunct of the guard a concrete program whose behaviour changes ([changes]).
+    [norm] is the tree CPython parses from the printed text; [parses_as_built t] (norm t = allpar t) says the text parses back
+    to the tree the codemod built: it holds for every tree printed with the parentheses Python's precedences need (the harness
+    feeds both fully and minimally parenthesised texts) and fails exactly when a replacement lost parentheses it needed.
+    [in_model]: the evaluator defines the original program (it declines identity of small values, non-int set elements, float
+    arithmetic, ordering of tuples/lists, generator objects, ...): without it a law could hold because both sides are
+    "OutOfModel".  The evaluator has exceptions but no other effects, so "effect-free" parts of the guards only speak
+    about raising; effects are exercised by the program families of the harness (side-effecting predicates etc.).
 
-    Why _partial: (i) MiniPy is a fragment of Python and its evaluator a model of CPython (validated against CPython on
-    every run, never proved); (ii) the other refactoring codemods named by the property (walrus-if, f-strings, logging,
-    imports, abc, resource leak, lock, module global, sql parameterization) have no model: the harness only searches
-    them; (iii) that the repaired folds/inversions never lose parentheses ([paren_safe (rw e)] for fully parenthesised
-    [e]) is a premise checked per case, not a theorem. *)
+    Why _partial: (i) MiniPy is a fragment of Python (no f-strings, statements, attribute access, arithmetic other than //,
+    user classes with comparison methods) and its evaluator a model of CPython (validated against CPython on every run,
+    never proved): e.g. use-set-literal needs no SEMANTIC guard on MiniPy, but inside an f-string replacement field the
+    display's `{` joins the field's `{` (finding kf_set_literal_fstring_braces, searched by the f-string family);
+    (ii) the other refactoring codemods named by the property have no model: the harness only searches them;
+    (iii) that the repaired folds/inversions never lose parentheses ([parses_as_built (rw e)]) is a premise checked per
+    case, not a theorem. *)
 From CM Require Import Model.MiniPy Model.PySem Model.Rewrites Spec.RewritesSpec Proofs.C08Lemmas Generated.Tables.
 From Coq Require Import String.
 
@@ -40,7 +48,7 @@ Theorem C08_generator_partial : C08_generator_statement generator_cfg_v.
 Proof. exact (C08_generator_all generator_cfg_v). Qed.
 Print Assumptions C08_generator_partial.
 
-(** use-set-literal: no guard at all. *)
+(** use-set-literal: no semantic guard on MiniPy expressions (see the header for what lies outside MiniPy). *)
 Theorem C08_set_literal :
   forall rho e, parses_as_built e -> parses_as_built (rw_set_literal e) -> in_model (meaning rho e) = true -> preserves rw_set_literal rho e.
 Proof. exact C08_set_literal_all. Qed.
